@@ -6,7 +6,9 @@ VERIF = os.path.dirname(os.path.dirname(os.path.abspath(__file__)))
 
 
 def write(prop, tier, seed, level, coverage, assumptions, wall_s, violations):
-    os.makedirs(os.path.join(VERIF, "evidence"), exist_ok=True)
+    from . import build
+    edir = os.path.join(VERIF, "evidence") if not build.ALT else os.path.join(build.BUILD, "evidence")
+    os.makedirs(edir, exist_ok=True)
     ev = {
         "property_id": prop,
         "tier": tier,
@@ -17,7 +19,7 @@ def write(prop, tier, seed, level, coverage, assumptions, wall_s, violations):
         "wall_s": round(wall_s, 2),
         "violations": violations,
     }
-    path = os.path.join(VERIF, "evidence", f"{prop}.json")
+    path = os.path.join(edir, f"{prop}.json")
     tmp = path + ".tmp"
     with open(tmp, "w") as f:
         json.dump(ev, f, indent=1, sort_keys=True)
